@@ -145,7 +145,7 @@ func (p *prover) proveObl(o boundsObl) (bool, string) {
 	// phi split
 	for k := range o.l.terms {
 		ph, ok := k.v.(*ssa.Phi)
-		if !ok || k.len {
+		if !ok {
 			continue
 		}
 		// other atoms must be loop invariant w.r.t. the phi
@@ -173,7 +173,11 @@ func (p *prover) proveObl(o boundsObl) (bool, string) {
 			sub := o.l.clone()
 			coef := sub.terms[k]
 			delete(sub.terms, k)
-			sub = sub.add(p.linOf(e), coef)
+			if k.len {
+				sub = sub.add(p.lenOf(e), coef) // len(phi(a, b)) on the edge coming from a is len(a)
+			} else {
+				sub = sub.add(p.linOf(e), coef)
+			}
 			f2 := p.factsAt(pred.Instrs[len(pred.Instrs)-1])
 			// the branch the predecessor itself took to enter the phi block
 			if ifi, ok := pred.Instrs[len(pred.Instrs)-1].(*ssa.If); ok {
